@@ -2,6 +2,7 @@ package query
 
 // Driver `query` (C08): see steps_test.go for the oracles.  Coq cases (Corr/CorrQuery.v):
 //   QEst  every EstimateGas step: the model's estimate_gas on the measured executable vs the real answer;
+//   QGas  the gas limit an eth_call runs with (request gas vs node cap), read back from a GAS-reporting contract;
 //   QBin  evmtypes.BinSearch driven directly with synthetic executables: probes in order and result.
 
 import (
@@ -60,8 +61,10 @@ func TestDriverQuery(t *testing.T) {
 				o = w.stepCheckTx(sr)
 			case k < 74:
 				o = w.stepSimulate(sr)
-			case k < 84:
+			case k < 81:
 				o = w.stepGrpc(sr)
+			case k < 84:
+				o = w.stepGasCap(sr)
 			case k < 92:
 				o = w.stepHistory(sr)
 			default:
